@@ -35,6 +35,8 @@ func main() {
 		runC14(*seed, *count)
 	case "C17":
 		runC17(*seed, *count)
+	case "C11":
+		runC11(*seed, *count)
 	case "C15":
 		runC15(*seed, *count)
 	case "C16":
